@@ -37,6 +37,8 @@ type Thread struct {
 	granted     bool // the pending sync op has been scheduled
 	quiesceOK   bool
 	wasWaitingW bool
+	retry    bool
+	nid      int
 	panicking   *goPanic
 	resumePanic bool
 	mustFinish  bool
@@ -77,6 +79,7 @@ type deferred struct {
 	fn   FuncV
 	args []Value
 	site string
+	pos  token.Pos
 }
 
 type InputRec struct {
@@ -178,6 +181,9 @@ type Machine struct {
 	siteCache        map[token.Pos]string
 	lastIntrRes      Value
 	curFn            *ssa.Function
+	curPos           token.Pos
+	deferPos         token.Pos
+	nextNid          int
 	lastIntrSt       invStatus
 	harnessFn        map[*ssa.Function]bool
 }
@@ -513,6 +519,8 @@ func (m *Machine) resetRun() {
 	m.ghostDepth = 0
 	m.timeNow = nil
 	m.chanWaits = nil
+	m.nextNid = 1
+	m.deferPos = token.NoPos
 	m.pendAux, m.pendAuxSet = 0, false
 	m.havocSeq = 0
 	m.raceCheck = m.H.Opts["race"] != "off"
@@ -546,13 +554,14 @@ func (m *Machine) RunOne() (more bool) {
 	}()
 	main := m.newThread("main")
 	main.mustFinish = true
+	main.nid = 0
 	m.pushFrame(main, FuncV{fn: m.H.Fn}, nil, nil, nil)
 	m.schedule()
 	return
 }
 
 func (m *Machine) newThread(name string) *Thread {
-	t := &Thread{id: len(m.threads), name: name}
+	t := &Thread{id: len(m.threads), name: name, nid: -1}
 	t.vc = make([]int, t.id+1)
 	t.vc[t.id] = 1
 	m.threads = append(m.threads, t)
@@ -634,9 +643,6 @@ func (m *Machine) schedule() {
 			m.stats.Truncated++
 			m.inconclusive(fmt.Sprintf("depth limit %d reached", m.H.Depth*50))
 			panic(&pathEnd{"depth"})
-		}
-		if next != m.cur && m.multi {
-			m.schedLog = append(m.schedLog, SchedStep{Thread: next.id, Site: m.threadSite(next), Op: next.blockOn})
 		}
 		m.cur = next
 		next.granted = true
